@@ -886,6 +886,7 @@ func TestC33(t *testing.T) {
 	r.Extra("rule", "query DAGs: every labelled DAG on <=4 nodes (572; each used in thorough, sampled in quick) plus random DAGs on 2-8 nodes, dependency order shuffled, "+
 		"sometimes a duplicated dependency/root; node value = H(key, dep values); histories of 4-12 steps from {Run, 2/4/8 concurrent Runs with overlapping roots, Evict(cached keys), "+
 		"Evict(uncached / non-existent keys), concurrent mix of Runs and Evicts} x parallelism {1,2,4,16} x hook perturbation, race detector on. "+
+		"plus sequential histories (3-9 steps) on random DAGs in which Runs are cancelled when their k-th query body starts (or before the call): the later uncancelled Runs must return reference values, flag exactly what they computed, execute nothing that an uncancelled Run memoized and nothing twice, and return at all (quiescence criterion); executions are attributed to the Run whose context the body carries, queries touched by a cancelled Run have unknown cache state. "+
 		"plus sequential histories on graphs whose edges depend on an input that changes between evictions (apps resolve config and lib[config]); reference = dependency closure of each query's LAST execution. "+
 		"non-trivial = history with >=1 eviction that removed something and >=1 concurrent step; distinct = by (graph, parallelism, history)")
 	r.Extra("assumptions", []string{
@@ -959,6 +960,7 @@ func TestC33(t *testing.T) {
 		}
 	})
 	c33Dynamic(r)
+	c33Cancel(r)
 	nI := 0
 	st.ilv.Range(func(_, _ any) bool { nI++; return true })
 	r.ClassN("distinct-(history,observed-order)-pairs", int64(nI))
